@@ -137,7 +137,7 @@ func recencyHistory(r *lib.Run, pool *lib.DirPool, i int, seed uint64, backend b
 	rng := rand.New(rand.NewPCG(seed, uint64(i)+99))
 	id := fmt.Sprintf("C06-s%d-h%d", r.Seed, i)
 	sh := genRecencyShape(rng, i)
-	in := build(sh, id, rng, -1)
+	in := build(sh, id, rng, -1, nil)
 	if err := in.selfCheck(); err != nil {
 		r.Inconclusive(err.Error())
 		return
